@@ -61,6 +61,13 @@ CHECKS = {
         note="Trusted: the reference machine's list/vector primitives written from R7RS 6.4/6.8. eq?/eqv? on pairs are not judged (not listed by C14).",
         design="§5 C14",
     ),
+    "C15": dict(
+        category="exploration",
+        technique="deterministic simulation of operation histories over mutable multi-byte strings: every operation checked against a Vec<char> reference with object identity, unique-marker mutations through aliases, collections and slices composed",
+        text="Seeded operation sequences (4-10 operations, each third one a unique-marker string-set! through an alias) over five mutable strings mixing 1-4 byte characters and two containers holding some of them; all listed string and character procedures with start/end/index arguments from {-1,0,1,len-1,len,len+1,2^63}, fill/set characters of every width, integer->char across the surrogate range and beyond 0x10FFFF; after every operation the result and all pool contents must equal the Vec<char> model; an abort of the host (allocation failure) is caught by crash sentinels and reported with its replay.",
+        note="Trusted: Rust's Unicode tables for case mapping (both sides use them); the -ci palette avoids characters where lower-casing and case folding differ.",
+        design="§5 C15",
+    ),
     "C18": dict(
         category="exploration",
         technique="deterministic simulation: seeded collection schedules between two productions of a symbol name, name-equality model and intern-table audit",
